@@ -99,8 +99,11 @@ def oracle(case, rec):
             if not np.array_equal(pre, exp):
                 raise Violation('C12/get_cycle_vector/all-cycles-with-mask', 'expected %r got %r' % (exp.tolist()[:40], pre.tolist()[:40]))
         rec.cls('after-a-masked-all-cycles-request')
+    # "all cycles requested" = any falsy flag (the literal False, a numpy boolean from a comparison, 0), "good cycles" any truthy one
+    flag = ([True, np.bool_(True), 1] if good else [False, np.bool_(False), 0, np.False_])[(p2.shape[0] + p2.shape[1]) % (3 if good else 4)]
+    rec.cls('return_good=%s' % type(flag).__name__)
     try:
-        out = emd.cycles.get_cycle_vector(arg, return_good=good, **kwargs)
+        out = emd.cycles.get_cycle_vector(arg, return_good=flag, **kwargs)
     except Exception as e:
         segs = refmodel.cycle_partition(p2[:, 0], step)
         where = 'wrap-on-last-sample' if segs and segs[-1][1] - segs[-1][0] == 1 else 'other'
